@@ -265,6 +265,15 @@ def run():
                 p = dict(base)
                 p[n1], p[n2] = bad[n1][0], bad[n2][0]
                 one_case(H, p['start'], p['stop'], p['count'], p['factor'], p['jitter'], seed, 'invalid')
+    # long runs: "exactly count values" and the endless 'repeat' form must survive thousands of steps
+    for start, stop, factor in [(1, 10, 2.0), (0.5, 1e6, 10.0), (0, 3, 1.5), (2, 2, 1.0)]:
+        for cnt in (1100, 3000):
+            one_case(H, start, stop, cnt, factor, False, seed, 'long')
+        globals()['REPEAT_TAKE'] = 2500
+        try:
+            one_case(H, start, stop, 'repeat', factor, False, seed, 'long')
+        finally:
+            globals()['REPEAT_TAKE'] = 12
     # stop > start swapped
     for s0, t0 in [(2, 1), (10, 0.5), (1e3, 999.9999)]:
         for c0 in (None, 3):
@@ -283,6 +292,10 @@ def run():
                 for _ in range(du):
                     a, b = math.nextafter(a, math.inf), math.nextafter(b, -math.inf)
                     cands.update((a, b))
+                # also a hair above/below the exact power, well outside the rounding tolerance of the comparison (a
+                # logarithm that is rounded or truncated before ceil() shows here, not within a few ulps)
+                for rel in (1e-13, 1e-11, 1e-9, 1e-7, 1e-5):
+                    cands.update((s * (1 + rel), s * (1 - rel)))
                 for stop in sorted(cands):
                     if stop >= start:
                         one_case(H, start, stop, None, factor, False, seed, 'powers')
